@@ -9,7 +9,7 @@
                               and returns a value pyeq to Expect.decode_val whenever that is defined
      decode_array_spec        the same for n consecutive elements (Array.decode; BOOL arrays flattened)
    Hypotheses on the project are computable predicates ([layout_ok]): member sizes inside the
-   structure, non-BOOL members in offset order, distinct member names, standard string layout.
+   structure (in any order: StructTag seeks to each offset), distinct member names, standard string layout.
    No axioms. *)
 From Coq Require Import ZifyBool.
 From PV Require Import Base.Bytes Base.BytesLemmas Base.Res Base.Proto Base.PyStr.
@@ -93,8 +93,8 @@ Lemma stream_read_app n d rest : len d = n -> 0 < n -> stream_read n (d ++ rest)
 Proof.
   intros Hl Hn. unfold stream_read, len in *.
   replace (Z.to_nat n) with (length d) by lia.
-  rewrite firstn_app_exact, skipn_app_exact.
-  destruct d; [cbn in Hl; lia|reflexivity].
+  rewrite firstn_app_exact, skipn_app_exact. cbv zeta.
+  destruct d as [|z d]; [cbn in Hl; lia|]. unfold len. replace (Z.of_nat (length (z :: d)) <? n) with false by lia. reflexivity.
 Qed.
 
 (* ================================================================ elementary types *)
@@ -231,7 +231,7 @@ Definition f_val (e : fld) : text * rvalue := let '(n, _, _, _, v) := e in (n, v
 Fixpoint chain (total pos : Z) (L : list fld) : Prop :=
   match L with
   | [] => True
-  | (_, off, _, sz, _) :: r => pos <= off /\ 0 <= sz /\ off + sz <= total /\ chain total (off + sz) r
+  | (_, off, _, sz, _) :: r => 0 <= off /\ 0 <= sz /\ off + sz <= total /\ chain total pos r
   end.
 
 Lemma len_skipn_z (l : bytes) k : 0 <= k <= len l -> len (skipn (Z.to_nat k) l) = len l - k.
@@ -242,21 +242,16 @@ Lemma dec_members_ok dec raw : forall L pos vals,
   (forall n off tc sz v, In (n, off, tc, sz, v) L ->
      dec tc (skipn (Z.to_nat off) raw) = Ok (v, skipn (Z.to_nat (off + sz)) raw)) ->
   NoDup (map f_name L) -> (forall e, In e L -> dget (f_name e) vals = None) ->
-  dec_members dec (map f_req L) pos (skipn (Z.to_nat pos) raw) vals = Ok (vals ++ map f_val L).
+  dec_members dec (map f_req L) raw vals = Ok (vals ++ map f_val L).
 Proof.
   induction L as [|[[[[n off] tc] sz] v] r IH]; intros pos vals Hpos Hch Hdec Hnd Hfr.
   - cbn. rewrite app_nil_r. reflexivity.
   - cbn [map f_req dec_members]. cbn [chain] in Hch. destruct Hch as (H1 & H2 & H3 & H4).
-    set (skip := if pos <? off then off - pos else 0).
-    assert (Hskip : skip = off - pos) by (subst skip; destruct (pos <? off) eqn:E; lia).
-    rewrite skipn_add.
-    replace (Z.to_nat pos + Z.to_nat skip)%nat with (Z.to_nat off) by lia.
+    replace (off <? 0) with false by lia.
     rewrite (Hdec n off tc sz v (or_introl eq_refl)). cbn [bind].
-    rewrite !len_skipn_z by lia.
-    replace (pos + (len raw - pos - (len raw - off)) + (len raw - off - (len raw - (off + sz)))) with (off + sz) by lia.
     inversion Hnd as [|x l Hnotin Hnd']; subst.
     rewrite (dset_fresh _ _ _ (Hfr _ (or_introl eq_refl))).
-    rewrite IH.
+    rewrite (IH pos).
     + rewrite <- app_assoc. reflexivity.
     + lia.
     + exact H4.
@@ -336,17 +331,6 @@ Proof.
 Qed.
 
 (* ================================================================ layout hypotheses (computable) *)
-(* non-BOOL members in offset order, none starting before the previous one ends *)
-Fixpoint sorted_from (p : project) (pos : Z) (ms : list member) : bool :=
-  match ms with
-  | [] => true
-  | m :: r => if is_bool_member m then sorted_from p pos r
-              else match member_size p m with
-                   | Some s => (pos <=? m_off m) && sorted_from p (m_off m + s) r
-                   | None => false
-                   end
-  end.
-
 (* a structure whose visible members are LEN and DATA[n] is a real string: LEN DINT at 0, DATA SINT[n] at 4 *)
 Definition string_std (t : template) : bool :=
   match visible_members t with
@@ -358,7 +342,7 @@ Definition string_std (t : template) : bool :=
   end.
 
 Definition tmpl_layout_ok (p : project) (t : template) : bool :=
-  forallb (member_ok p t) (t_members t) && sorted_from p 0 (t_members t)
+  forallb (member_ok p t) (t_members t)
   && distinct_by text_eqb (map m_name (t_members t)) && string_std t && (0 <? t_size t).
 
 Definition layout_ok (p : project) : bool := forallb (tmpl_layout_ok p) (p_templates p).
@@ -425,7 +409,9 @@ Proof. reflexivity. Qed.
 
 Lemma decode_tc_struct ms bits priv size s :
   decode_tc (KStruct ms bits priv size) s
-  = wrap_decode (let* vals := dec_members decode_tc ms 0 (firstn (Z.to_nat size) s) [] in
+  = wrap_decode (if negb (match firstn (Z.to_nat size) s with [] => true | _ => false end)
+                    && (len (firstn (Z.to_nat size) s) <? size) then Err DataError else
+                 let* vals := dec_members decode_tc ms (firstn (Z.to_nat size) s) [] in
                  let* vals2 := dec_bits (firstn (Z.to_nat size) s) bits vals in
                  Ok (RStruct (filter (fun kv => negb (tmem (fst kv) priv)) vals2), skipn (Z.to_nat size) s)).
 Proof. reflexivity. Qed.
@@ -645,22 +631,20 @@ Definition mk_fld (p : project) (dval : member * tinfo -> rvalue) (mi : member *
   (mi_name mi, m_off (fst mi), ti_class (snd mi), match member_size p (fst mi) with Some s => s | None => 0 end, dval mi).
 
 Lemma sorted_chain p t dval : forall infos pos,
-  sorted_from p pos (map fst infos) = true ->
   (forall mi, In mi infos -> is_bool_info (snd mi) = is_bool_member (fst mi) /\ member_ok p t (fst mi) = true) ->
   chain (t_size t) pos (map (mk_fld p dval) (filter (fun mi => negb (is_bool_info (snd mi))) infos)).
 Proof.
-  induction infos as [|[m i] r IH]; intros pos Hs Hm; [exact I|].
-  cbn [map fst sorted_from] in Hs. cbn [filter fst snd].
+  induction infos as [|[m i] r IH]; intros pos Hm; [exact I|].
+  cbn [filter fst snd].
   destruct (Hm (m, i) (or_introl eq_refl)) as [Hb Hok]. cbn [fst snd] in Hb, Hok. rewrite Hb.
   destruct (is_bool_member m) eqn:Eb; cbn [negb].
-  - apply IH; [exact Hs|]. intros mi Hin. apply Hm. right. exact Hin.
+  - apply IH. intros mi Hin. apply Hm. right. exact Hin.
   - cbn [map]. unfold mk_fld at 1. cbn [fst snd chain].
-    destruct (member_size p m) as [s|] eqn:Es; [|discriminate].
-    apply andb_prop in Hs. destruct Hs as [Hs1 Hs2].
-    unfold member_ok in Hok. rewrite Eb, Es in Hok.
+    unfold member_ok in Hok. rewrite Eb in Hok.
+    destruct (member_size p m) as [s|] eqn:Es; [|rewrite !andb_false_r in Hok; discriminate Hok].
     repeat (apply andb_prop in Hok; destruct Hok as [Hok ?]).
     split; [lia|]. split; [lia|]. split; [lia|].
-    apply IH; [exact Hs2|]. intros mi Hin. apply Hm. right. exact Hin.
+    apply IH. intros mi Hin. apply Hm. right. exact Hin.
 Qed.
 
 Lemma firstn_app_all {A} (a b : list A) n : n = length a -> firstn n (a ++ b) = a.
@@ -690,7 +674,7 @@ Section StructCase.
   Lemma sc_fst : map fst infos = t_members t.
   Proof. apply (member_infos_spec _ _ _ Hmi). Qed.
 
-  Lemma sc_lay : forallb (member_ok p t) (t_members t) = true /\ sorted_from p 0 (t_members t) = true
+  Lemma sc_lay : forallb (member_ok p t) (t_members t) = true /\ True
                  /\ distinct_by text_eqb (map m_name (t_members t)) = true /\ string_std t = true /\ 0 < t_size t.
   Proof.
     pose proof Hlay as H. unfold tmpl_layout_ok in H. repeat (apply andb_prop in H; destruct H as [H ?]).
@@ -815,15 +799,15 @@ Section StructCase.
   Proof.
     intros Hl Hokd. rewrite decode_tc_struct.
     rewrite firstn_app_all, skipn_app_all by (unfold len in Hl; lia).
+    replace (len d <? t_size t) with false by lia. rewrite andb_false_r.
     pose proof sc_lay as (Hmok & Hsort & Hdist & Hstd & Hsz).
     (* first loop *)
     replace (map (fun mi => (mi_name mi, m_off (fst mi), ti_class (snd mi))) (filter nb infos))
       with (map f_req (map (mk_fld p (dval_of d)) (filter nb infos))) by (rewrite map_map; reflexivity).
     assert (H1 := dec_members_ok decode_tc d (map (mk_fld p (dval_of d)) (filter nb infos)) 0 []).
-    change (skipn (Z.to_nat 0) d) with d in H1.
     rewrite H1; clear H1.
     2:{ unfold len. lia. }
-    2:{ rewrite Hl. apply sorted_chain; [rewrite sc_fst; exact Hsort|].
+    2:{ rewrite Hl. apply sorted_chain.
         intros mi Hin. split; [apply sc_bool; exact Hin|apply sc_member; exact Hin]. }
     2:{ intros n off tc sz v Hin. apply in_map_iff in Hin. destruct Hin as (mi & E & Hin).
         apply filter_In in Hin. destruct Hin as [Hin Hnb].
